@@ -101,6 +101,17 @@ def rules(ctx, tier):
         for o in x.obs:
             o.scenario = x.scenario
         out.append(x)
+    # "streamed puts with any chunking": whatever the sizes of the chunks, the bytes reach the file in the order they
+    # were hashed and counted
+    from . import c18
+    from .base import share_rule
+    x = share_rule(ctx, tier, c18, "R1", "R9",
+                   "a streamed put stores its chunks in order: every write call hands exactly its data, once, through the "
+                   "one buffered writer (shared with C18-R1)",
+                   "a large chunk is written around the buffer that still holds an earlier small chunk: hash and size are "
+                   "those of header-then-body, the file holds body-then-header, and get returns bytes that were never put")
+    if x is not None:
+        out.append(x)
     return out
 
 
